@@ -291,7 +291,8 @@ func (node *CallGraphPipeline) unsplit(lookup *TypeLookup) error {
 	}
 	node.Outputs.Exp, node.Outputs.Type, node.Forks = unmergeExp(e, t, lookup, node.Forks[:0])
 	var splitCalls map[*CallStm]struct{}
-	for k, binding := range node.Inputs {
+	for _, k := range sortedKeys(node.Inputs) {
+		binding := node.Inputs[k]
 		// Ensure inputs can be scanned for refs, and also that their
 		// types are cached.  Otherwise, at runtime mrp may end up trying to
 		// cache the types concurrently.
